@@ -51,12 +51,16 @@ def gen_layout(rng):
         own = [n for n in names if n not in declared and rng.random() < 0.7] if lv < nlev - 1 else [n for n in names if n not in declared]
         redecl = [n for n in declared if rng.random() < 0.3] if lv > 0 else []
         for n in own + redecl:
-            kind = rng.choice(["req", "req", "def", "fac", "opt0", "optstr", "optnone"])
+            kind = rng.choice(["req", "req", "def", "fac", "opt0", "optstr", "optnone", "anydef"])
             fields.append({"name": n, "kind": kind, "kw_only": rng.random() < 0.25, "init": True})
+            if rng.random() < 0.25:
+                fields[-1]["alias"] = "A_" + n          # the key differs from the parameter name
             if kind in ("def", "fac") and rng.random() < 0.15:
                 fields[-1]["init"] = False
         declared += own
         levels.append({"fields": fields, "initvar": rng.random() < 0.15, "classvar": rng.random() < 0.2})
+    if rng.random() < 0.5:
+        levels[-1]["allow_by_name"] = True              # allow_deserialization_not_by_alias
     return levels
 
 
@@ -73,9 +77,9 @@ def build(levels, idx, debug=False):
         def make_ns():
             ann, ns = {}, {}
             for f in lv["fields"]:
-                ann[f["name"]] = {"fac": typing.List[int], "opt0": typing.Optional[int], "optstr": typing.Optional[str], "optnone": typing.Optional[int]}.get(f["kind"], int)
+                ann[f["name"]] = {"fac": typing.List[int], "opt0": typing.Optional[int], "optstr": typing.Optional[str], "optnone": typing.Optional[int], "anydef": typing.Any}.get(f["kind"], int)
                 kw = {}
-                if f["kind"] == "def":
+                if f["kind"] in ("def", "anydef"):
                     kw["default"] = 7
                 elif f["kind"] == "fac":
                     kw["default_factory"] = list
@@ -89,6 +93,8 @@ def build(levels, idx, debug=False):
                     kw["kw_only"] = True
                 if not f["init"]:
                     kw["init"] = False
+                if f.get("alias"):
+                    kw["metadata"] = {"alias": f["alias"]}
                 ns[f["name"]] = dataclasses.field(**kw)   # fresh Field objects on every attempt
             if lv["initvar"]:
                 ann[f"iv{li}"] = dataclasses.InitVar[int]
@@ -97,7 +103,7 @@ def build(levels, idx, debug=False):
                 ann[f"cv{li}"] = typing.ClassVar[int]
                 ns[f"cv{li}"] = 99
             if li == len(levels) - 1 and debug:
-                ns["Config"] = type("Config", (BaseConfig,), {"debug": True})
+                ns["Config"] = type("Config", (BaseConfig,), {"debug": True, "allow_deserialization_not_by_alias": bool(lv.get("allow_by_name"))})
             ns["__annotations__"] = ann
             return ns
 
@@ -130,7 +136,7 @@ def stdlib_view(cls):
         has_def = f.default is not dataclasses.MISSING or f.default_factory is not dataclasses.MISSING
         nullable = f.default is None or typing.get_origin(f.type) is typing.Union
         out.append({"name": f.name, "has_default": has_def, "factory": f.default_factory is not dataclasses.MISSING, "kw_only": bool(f.kw_only), "init": bool(f.init),
-                    "default": (None if not has_def or f.default is dataclasses.MISSING else f.default), "nullable": nullable, "is_str": f.type == typing.Optional[str]})
+                    "default": (None if not has_def or f.default is dataclasses.MISSING else f.default), "nullable": nullable, "is_str": f.type == typing.Optional[str], "alias": f.metadata.get("alias")})
     return out
 
 
@@ -183,7 +189,13 @@ def run_layouts(ctx, layouts):
                 else:
                     present[n] = [1, 2] if fv["factory"] else 100 + len(present)
             stray = {n: 555 for n in other if ctx.rng.random() < 0.3}
-            d = {**present, **stray}
+            # an aliased member is read under its alias (or, when allowed, under either name)
+            allow = bool(levels[-1].get("allow_by_name"))
+            keyed = {}
+            for n, v in present.items():
+                al = next(f for f in view if f["name"] == n)["alias"]
+                keyed[al if al and (not allow or ctx.rng.random() < 0.5) else n] = v
+            d = {**keyed, **stray}
             case = {"layout": levels, "keys": sorted(d)}
             nontriv = len(levels) > 1 or len({f["kind"] for lv in levels for f in lv["fields"]}) > 1
             ctx.count(case, nontriv, kind=f"levels:{len(levels)}")
@@ -240,7 +252,7 @@ def run_layouts(ctx, layouts):
             for m in re.finditer(r"return (?:cls\.__post_deserialize__\()?cls\((.*?)\)\)?\s*$", buf2.getvalue(), re.M):
                 call2 = m.group(1)
             full = {f["name"]: ([1] if f["factory"] else ("z" if f["is_str"] else 5)) for f in view if f["init"]}
-            o = dec.decode(dict(full))
+            o = dec.decode({(next(f for f in view if f["name"] == k)["alias"] or k): v for k, v in full.items()})
             if any(getattr(o, k) != v for k, v in full.items()):
                 ctx.violation({"layout": levels, "entry": "codec"}, {"decoded": repr(o)}, "codec decode binds every value to its own field", "wrong binding through the codec", lambda f: False)
             lines.append({"op": "args", "layout": lay("codec"), "present": present_all})
